@@ -1021,6 +1021,13 @@ func isHeadExp(v ssa.Value) bool {
 		_, okH := isFieldLoad(ia.Index, "queue", "head")
 		return okB && okH
 	}
+	if ia, ok := base.(*ssa.IndexAddr); ok {
+		_, okB := isFieldLoad(ia.X, "queue", "buf")
+		_, okH := isFieldLoad(ia.Index, "queue", "head")
+		if okB && okH {
+			return true
+		}
+	}
 	root := rootAddr(base)
 	if al, ok := cellRoot(root).(*ssa.Alloc); ok {
 		st, _, esc := cellStores(al)
@@ -1152,16 +1159,7 @@ func r18_1(c *Ctx) {
 			if good {
 				cnt := ctor.Params[0]
 				good = ms.Len == ssa.Value(cnt) && ms.Cap == ssa.Value(cnt)
-				g := false
-				for _, ifi := range ifsIn(ctor) {
-					op, k, succ, ok := cmpConstEdge(ifi, func(v ssa.Value) bool { return v == ssa.Value(cnt) })
-					if !ok {
-						continue
-					}
-					if (op == token.LSS && k >= 1 && edgeDominates(ifi.Block(), 1-succ, st.Block())) || (op == token.GEQ && k >= 1 && edgeDominates(ifi.Block(), succ, st.Block())) {
-						g = true
-					}
-				}
+				g := intGuard(ctor, st.Block(), func(v ssa.Value) bool { return v == ssa.Value(cnt) }, negInf, 1, posInf)
 				good = good && g
 			}
 			c.check(good, name, P.ipos(st), "the constructor allocates exactly `count` slots under a positive-count check", "the FiniteReplayer buffer is not make([]T, count) under the count check: capacity differs from N")
@@ -2127,7 +2125,9 @@ func r18_6(c *Ctx) {
 			_, ok = isFieldLoad(call.Call.Args[0], "ValidReplayer", "lastGC")
 			return ok
 		}, true)
-		afterGC := gcCall != nil && should != nil && instrDominates(gcCall, st) && guardedByBool(fn, st.Block(), func(v ssa.Value) bool { return v == ssa.Value(should) }, true)
+		afterGC := gcCall != nil && should != nil && (instrDominates(gcCall, st) || instrDominates(st, gcCall)) &&
+			guardedByBool(fn, st.Block(), func(v ssa.Value) bool { return v == ssa.Value(should) }, true) &&
+			guardedByBool(fn, gcCall.Block(), func(v ssa.Value) bool { return v == ssa.Value(should) }, true)
 		c.check(valOK && (isZero || afterGC), name, P.ipos(st), "lastGC = now only when it was zero or right after a collection", "lastGC is advanced on a path where no collection ran (and it was not the initialisation): Puts arriving more often than GCInterval postpone collection forever, expired messages stay reachable")
 	}
 	if n == 0 {
